@@ -1,9 +1,13 @@
 -------------------------- MODULE Trace_Statements --------------------------
 (* Code -> spec for C14.  The driver records, from the real code, one ndjson line per event:
 
-     {"k":"ledger","id":..,"posts":[[date, flag, payee, narration, account, lot, [accounts of the entry], currency]..]}
-         the posting table AFTER OPEN / CLOSE / CLEAR and with the summary function already applied to the position
-         (obtained with an independent SELECT of the plain columns); it becomes the current table
+     {"k":"ledger","id":..,"posts":[[date, flag, payee, narration, account, lot, [accounts of the entry], currency,
+                                     flag of the posting itself]..]}
+         the posting table AFTER OPEN / CLOSE / CLEAR and with the summary function already applied to the position.
+         It is read off the DIRECTIVES (the transactions of the summarised entry list and their postings, attribute by
+         attribute: date, flag, payee, narration of the transaction; account, units, cost, flag of the posting), not
+         obtained through the columns of the postings table -- those are what the statements under observation use;
+         it becomes the current table
      {"k":"balances","id":..,"from":E,"where":E,"rows":[[account, [lot..]]..]}        observed BALANCES rows
      {"k":"journal","id":..,"from":E,"acct":{present,p},"rows":[[date, flag, payee, narration, account, [lot], [lot..]]..]}
      {"k":"dirs","id":..,"dirs":[[type, date, flag, payee, narration, [accounts]]..]}  the current directive table
@@ -28,7 +32,7 @@ Empty == <<>>
 NoStrings == {}
 
 PostRec(p) == [type |-> "transaction", date |-> p[1], flag |-> p[2], payee |-> p[3], narration |-> p[4], account |-> p[5],
-               lot |-> p[6], accounts |-> {p[7][k] : k \in DOMAIN p[7]}, currency |-> p[8]]
+               lot |-> p[6], accounts |-> {p[7][k] : k \in DOMAIN p[7]}, currency |-> p[8], pflag |-> p[9]]
 DirRec(d) == [type |-> d[1], date |-> d[2], flag |-> d[3], payee |-> d[4], narration |-> d[5],
               accounts |-> {d[6][k] : k \in DOMAIN d[6]}]
 SeqSet(s) == {s[k] : k \in DOMAIN s}
